@@ -307,7 +307,14 @@ type tag struct {
 
 // checkViews: C14 on one list.
 func checkViews(r *listRec, how int) error {
-	c := newVconc("id", 0)
+	// builds 2, 3 and 5 run on extreme values (ints beyond 2^53, MinInt/MaxInt, infinities); odd builds use re-entrant
+	// callbacks (every callback reads other typed views of the same list while the outer view is running)
+	mode := "id"
+	if how == 2 || how == 3 || how == 5 {
+		mode = "extreme"
+	}
+	reentrant := how%2 == 1
+	c := newVconc(mode, 0)
 	c.derivedElems = how >= 4
 	how = how % 4
 	vals := make([]any, len(r.List))
@@ -340,9 +347,21 @@ func checkViews(r *listRec, how int) error {
 			return err
 		}
 	}
+	poke := func() {
+		if reentrant {
+			l.IntSlice()
+			l.StringSlice()
+			l.FloatSlice()
+			l.BoolSlice()
+			l.ObjectSlice()
+			l.ListSlice()
+			l.MapInts(func(x int) any { return x })
+			l.FilterStrings(func(string) bool { return true })
+		}
+	}
 	// ForEachX: call log
 	var log []any
-	rec := func(v any) { log = append(log, v) }
+	rec := func(v any) { log = append(log, v); poke() }
 	fe := map[string]func(){
 		"O":     func() { l.ForEachObject(func(x at.Object) { rec(x) }) },
 		"L":     func() { l.ForEachList(func(x at.List) { rec(x) }) },
@@ -377,7 +396,7 @@ func checkViews(r *listRec, how int) error {
 	}
 	// MapX with an injective tag of (call number, value): the result determines the call sequence
 	n := 0
-	mk := func(v any) any { n++; return fmt.Sprintf("%d:%T:%v", n, v, idOf(v)) }
+	mk := func(v any) any { n++; poke(); return fmt.Sprintf("%d:%T:%v", n, v, idOf(v)) }
 	expectTags := func(ws []any) []any {
 		out := make([]any, len(ws))
 		for i, w := range ws {
@@ -417,6 +436,7 @@ func checkViews(r *listRec, how int) error {
 	}
 	mkNil := func(v any) any {
 		n++
+		poke()
 		if n%2 == 1 {
 			return nil
 		}
@@ -597,6 +617,18 @@ func checkViewsHistory(r *listRec) error {
 }
 
 // checkSort: C17 on one list.
+func signs(xs []any) string {
+	var b strings.Builder
+	for _, x := range xs {
+		if f, ok := x.(float64); ok && math.Signbit(f) {
+			b.WriteByte('-')
+		} else {
+			b.WriteByte('+')
+		}
+	}
+	return b.String()
+}
+
 func checkSort(r *listRec, how int, mode string) error {
 	c := newVconc(mode, 0)
 	vals := make([]any, len(r.List))
@@ -632,6 +664,39 @@ func checkSort(r *listRec, how int, mode string) error {
 		}
 	}
 	if mode == "zeros" {
+		// +0.0 and -0.0 compare equal: their mutual order after Sort is free, but the result is still a permutation of the
+		// very same values (sign bits included) in non-decreasing order
+		if !r.SortDomain || r.SortPanics || len(vals) == 0 {
+			return nil
+		}
+		if _, isFloat := vals[0].(float64); !isFloat {
+			return nil
+		}
+		lz, _ := buildList(vals, how)
+		lz.Sort()
+		got := listContent(lz)
+		if len(got) != len(vals) {
+			return fmt.Errorf("Sort changed the length of %v to %d", vals, len(got))
+		}
+		count := map[uint64]int{}
+		for _, v := range vals {
+			count[math.Float64bits(v.(float64))]++
+		}
+		for i, g := range got {
+			f, ok := g.(float64)
+			if !ok {
+				return fmt.Errorf("Sort of floats %v yields a %T at %d", vals, g, i)
+			}
+			count[math.Float64bits(f)]--
+			if i > 0 && f < got[i-1].(float64) {
+				return fmt.Errorf("Sort of %v is not non-decreasing: %v", vals, got)
+			}
+		}
+		for bits, n := range count {
+			if n != 0 {
+				return fmt.Errorf("Sort of %v is not a permutation of the same values (bit pattern %#x of %v differs by %d): %v; signs %v", vals, bits, math.Float64frombits(bits), n, got, signs(got))
+			}
+		}
 		return nil
 	}
 	if r.SortPanics {
